@@ -38,7 +38,86 @@ fn laws(und: bool) {
     }
 }
 
+/// The laws for one concrete language and every (script?, region?): the language-only lookups fold to
+/// constants, so the 7143-row table costs nothing.  One harness per clause (`part`) so that each query
+/// carries at most two `minimize` calls:
+///   0: result uses only subtags of the maximised form, is one of the three shapes, maximizes back
+///   1: it is the *first* of {language, language-region, language-script} that maximizes back; None only if none does
+///   2: minimizing twice equals minimizing once
+///   3: minimize(maximize(x)) == minimize(x)
+fn laws_lang(code: &[u8], part: u8) {
+    let l = Language::from_bytes(code).unwrap();
+    let (s, _) = sym::opt_script();
+    let (r, _) = sym::opt_region();
+    let full = s.is_some() && r.is_some();
+    let maxed = if full { Some((l, s, r)) } else { maximize(l, s, r) };
+    let got = minimize(l, s, r);
+    cover!(got.is_some() && s.is_some());
+    match (got, maxed) {
+        (Some(m), Some(mx)) => match part {
+            0 => {
+                assert!(m.0 == mx.0, "language of the minimised form is the maximised language");
+                assert!(m.1.is_none() || m.1 == mx.1, "script, if kept, is the maximised script");
+                assert!(m.2.is_none() || m.2 == mx.2, "region, if kept, is the maximised region");
+                assert!(!(m.1.is_some() && m.2.is_some()), "one of {{language, language-region, language-script}}");
+                assert!(m.1.is_none() || s.is_some() || true);
+                assert!(maximize(m.0, m.1, m.2) == Some(mx), "the result maximizes to the same (language, script, region) as the original");
+            }
+            1 => {
+                let t0 = maximize(mx.0, None, None) == Some(mx);
+                let t1 = mx.2.is_some() && maximize(mx.0, None, mx.2) == Some(mx);
+                if t0 {
+                    assert!(m.1.is_none() && m.2.is_none(), "bare language is preferred when it maximizes back");
+                } else if t1 {
+                    assert!(m.1.is_none() && m.2 == mx.2, "language-region is preferred over language-script");
+                } else {
+                    assert!(m.1 == mx.1 && m.2.is_none());
+                }
+            }
+            2 => assert!(minimize(m.0, m.1, m.2) == Some(m), "minimizing twice equals minimizing once"),
+            _ => assert!(minimize(mx.0, mx.1, mx.2) == Some(m), "minimize(maximize(x)) == minimize(x)"),
+        },
+        (Some(_), None) => assert!(false, "minimize produced a value although nothing is known about the input"),
+        (None, Some(mx)) => {
+            if part == 1 {
+                // nothing maximizes back: none of the three candidate forms does
+                assert!(maximize(mx.0, None, None) != Some(mx));
+                assert!(mx.2.is_none() || maximize(mx.0, None, mx.2) != Some(mx));
+                assert!(mx.1.is_none() || maximize(mx.0, mx.1, None) != Some(mx));
+            }
+        }
+        (None, None) => {}
+    }
+}
+fn wrapper_lang(code: &[u8]) {
+    let (mut li, _m) = sym::any_langid(1);
+    li.language = Language::from_bytes(code).unwrap();
+    let before = li.clone();
+    let want = minimize(before.language, before.script, before.region);
+    let changed = li.minimize();
+    cover!(changed);
+    assert!(changed == want.is_some(), "bool result <=> a minimal form was found");
+    assert!(li.variants().len() == before.variants().len() && li.variants().zip(before.variants()).all(|(a, b)| a == b), "variants are never touched");
+    match want {
+        Some(t) => assert!((li.language, li.script, li.region) == t),
+        None => assert!(li == before, "false leaves the identifier unchanged"),
+    }
+    core::mem::forget((li, before));
+}
+
 proofs! {
+[] fn c08_zh_meaning() { laws_lang(b"zh", 0) }
+[] fn c08_zh_first() { laws_lang(b"zh", 1) }
+[] fn c08_zh_idempotent() { laws_lang(b"zh", 2) }
+[] fn c08_zh_minmax() { laws_lang(b"zh", 3) }
+[] fn c08_sr_meaning() { laws_lang(b"sr", 0) }
+[] fn c08_sr_first() { laws_lang(b"sr", 1) }
+[] fn c08_sr_idempotent() { laws_lang(b"sr", 2) }
+[] fn c08_sr_minmax() { laws_lang(b"sr", 3) }
+[] fn c08_en_meaning() { laws_lang(b"en", 0) }
+[] fn c08_en_first() { laws_lang(b"en", 1) }
+[] fn c08_qaa_meaning() { laws_lang(b"qaa", 0) }
+[] fn c08_wrapper_zh() { wrapper_lang(b"zh") }
 [] fn c08_laws_und() { laws(true) }
 [] fn c08_laws_lang() { laws(false) }
 
